@@ -55,7 +55,7 @@ def spell(rng, x):
     return m.replace("e+0", "e").replace("e+", "e").replace("e-0", "e-")   # e.g. '2.5009e6' -> pyyaml string
 
 
-def gen_custom(rng, dflt):
+def gen_custom(rng, dflt, force_shadow=False):
     custom, notes = {}, dict(unknown=[], bad_enum=None, malformed=False)
     lp = list(leaf_paths(dflt))
     for p in rng.sample(lp, rng.choice([0, 1, 2, 3, 5, 8, len(lp)])):
@@ -76,6 +76,26 @@ def gen_custom(rng, dflt):
             key = rng.choice(["bogus", "kb", "radius", "T_init", "speed"]) + str(rng.randint(0, 9))
             set_path(custom, where + (key,), rng.choice([1, 2.5, "text", {"deep": 3}]))
             notes["unknown"].append(key)
+    r = rng.random()
+    if r < 0.2 or force_shadow:
+        # entries that only SHARE THE NAME of a real parameter: inside an unknown section (reported by the section's name), or a valid name in the
+        # wrong section (the source acknowledges that this is not reported) - neither may move any derived constant
+        names = ["height", "length", "width", "rho_l", "solid_fraction", "cp_w", "k_f", "M_s", "T_eq", "Dh", "lambda_w"]
+        for _ in range(rng.choice([1, 2])):
+            nm = rng.choice(names)
+            val = rng.choice([0.05, 0.2, 1e2, 3.0, 0.5])
+            kind = rng.choice(["section", "section", "deep", "misplaced"])
+            if kind == "section":
+                sec = rng.choice(["lab_notes", "zz_archive", "aaa_old"]) + str(rng.randint(0, 9))
+                set_path(custom, (sec, nm), val); notes["unknown"].append(sec)
+            elif kind == "deep":
+                sec = rng.choice(["zz_archive", "notes"]) + str(rng.randint(0, 9))
+                set_path(custom, (sec, "old_values", nm), val); notes["unknown"].append(sec)
+            else:
+                home = [p_ for p_ in lp if p_[-1] == nm]
+                wrong = rng.choice([("solution",), ("vial",), ("vial", "geometry"), ("snowfall_parameters",), ("water",), ("kinetics",)])
+                if home and home[0][:-1] != wrong and isinstance(get_path(dflt, wrong), dict) and nm not in get_path(dflt, wrong):
+                    set_path(custom, wrong + (nm,), val); notes["misplaced"] = notes.get("misplaced", []) + [".".join(wrong + (nm,))]
     r = rng.random()
     if r < 0.45:
         conf = rng.choice(["shelf", "VISF", "jacket", "jacket", "VISF", "Shelf", "visf", "freezer"])
@@ -177,7 +197,7 @@ def check(rep, tier):
     if bad_later:
         rep.violation("rejected-later", "an enumeration is (also) rejected after loading: %s" % bad_later, dict(sites=bad_later))
     for i in range(n):
-        custom, notes = gen_custom(rng, dflt)
+        custom, notes = gen_custom(rng, dflt, force_shadow=(i < 8))      # the first inputs always carry name-shadowing entries
         path = os.path.join(impl.scratch(), "c19_%d.yaml" % i)
         with open(path, "w") as f:
             yaml.safe_dump(custom, f, sort_keys=False)
@@ -263,7 +283,10 @@ def check(rep, tier):
             rep.violation("acceptance", "configuration=%r dimensionality=%r arrangement=%r shape=%r is %s at load time" % (conf, dim, arrg, shp, "accepted" if res is not None else "rejected"),
                           dict(custom=custom))
         # unknown keys have no effect
-        if unk and res is not None:
+        def foreign(dd, ref):
+            return any(k not in ref or (isinstance(dd[k], dict) and isinstance(ref[k], dict) and foreign(dd[k], ref[k])) for k in dd)
+        if (unk or foreign(reparsed, dflt)) and res is not None:
+            rep.count("entries outside the default schema (unknown names or valid names in the wrong place): effect on derived constants judged")
             clean = copy.deepcopy(reparsed)
             def strip(dd, ref):
                 for k in list(dd):
@@ -277,7 +300,7 @@ def check(rep, tier):
             with contextlib.redirect_stdout(io.StringIO()):
                 res2 = C.calculateDerived(p2)
             if res2 != res:
-                rep.violation("unknown-keys-effect", "unknown keys %s change derived constants" % unk, dict(custom=custom))
+                rep.violation("unknown-keys-effect", "entries outside the default schema (unknown keys %s, misplaced %s) change derived constants: %s" % (unk, notes.get("misplaced", []), sorted(k for k in res if k not in res2 or res2[k] != res[k])[:6]), dict(custom=custom))
         try:
             lv = "(MkLeaves float %s)" % " ".join(fhex(float(get_path(merged, p))) for p in info["leaves"])
         except (TypeError, ValueError) as e:
